@@ -14,6 +14,7 @@ type TypeAliasType struct {
 	typeExpression *DeferredType
 	resolvedType   px.Type
 	loader         px.Loader
+	resolving      bool
 }
 
 var TypeAliasMetaType px.ObjectType
@@ -41,7 +42,7 @@ func DefaultTypeAliasType() *TypeAliasType {
 // must either be a *DeferredType, a parser.Expression, or nil. If it is nil, the
 // resolved Type must be given.
 func NewTypeAliasType(name string, typeExpression *DeferredType, resolvedType px.Type) *TypeAliasType {
-	return &TypeAliasType{name, typeExpression, resolvedType, nil}
+	return &TypeAliasType{name, typeExpression, resolvedType, nil, false}
 }
 
 func newTypeAliasType2(args ...px.Value) *TypeAliasType {
@@ -144,7 +145,11 @@ func (t *TypeAliasType) Name() string {
 }
 
 func (t *TypeAliasType) Resolve(c px.Context) px.Type {
-	if t.resolvedType == nil {
+	// an expression that asks for the resolution of its own alias (A = Array[Object[{parent => A}]]) gets the alias
+	// as it is: still unresolved
+	if t.resolvedType == nil && !t.resolving {
+		t.resolving = true
+		defer func() { t.resolving = false }()
 		t.resolvedType = t.typeExpression.Resolve(c)
 		t.loader = c.Loader()
 	}
@@ -190,4 +195,4 @@ func (t *TypeAliasType) PType() px.Type {
 	return &TypeType{t}
 }
 
-var typeAliasTypeDefault = &TypeAliasType{`UnresolvedAlias`, nil, defaultTypeDefault, nil}
+var typeAliasTypeDefault = &TypeAliasType{`UnresolvedAlias`, nil, defaultTypeDefault, nil, false}
